@@ -137,6 +137,13 @@ func caseData(s string) []byte {
 		d, _ := opsfitGenerate(opsfitParams{Seed: 1, Filler: f, Tail: 1000})
 		return d
 	}
+	var gap, seed int
+	if n, _ := fmt.Sscanf(s, "@far:%d:%d", &gap, &seed); n == 2 {
+		// a block, a long run of zeros, the same block again: one match at a distance beyond the gap
+		x := genRandom(rand.New(rand.NewSource(int64(seed))), 65536)
+		d := append(append(append(make([]byte, 0, gap+131072), x...), make([]byte, gap)...), x...)
+		return d
+	}
 	return unhxe(s)
 }
 
@@ -403,6 +410,12 @@ func checkXzWriter(prop string) func(a *checkArgs, r *Result) error {
 		for _, f := range fillers {
 			cases = append(cases, xzCase{Op: "xzwrite", Name: fmt.Sprintf("corpus/opsfit filler=%d", f), Cfg: xzCfg{LC: 3, PB: 2, DictCap: 8 << 20, BufSize: 4096},
 				Data: fmt.Sprintf("@opsfit:%d", f), Parts: []int{len(caseData(fmt.Sprintf("@opsfit:%d", f)))}})
+		}
+		// a match farther back than the reader's default dictionary (8 MiB): the reader must size its dictionary
+		// from the block header
+		{
+			ds := fmt.Sprintf("@far:%d:7", 9<<20)
+			cases = append(cases, xzCase{Op: "xzwrite", Name: "far-match/12000000", Cfg: xzCfg{LC: 3, PB: 2, DictCap: 12000000, BufSize: 4096}, Data: ds, Parts: []int{len(caseData(ds))}})
 		}
 		// the zero configuration (all defaults)
 		for i := 0; i < 4; i++ {
